@@ -81,3 +81,17 @@ def drain(iterable):
     except Exception as e:  # noqa: BLE001
         return out, e
     return out, None
+
+
+def drain_resumed(reader):
+    """Like drain(), but the consumer leaves its loop after the first item and starts a new loop on the same reader."""
+    out = []
+    try:
+        for x in reader:
+            out.append(x)
+            break
+        for x in reader:
+            out.append(x)
+    except Exception as e:  # noqa: BLE001
+        return out, e
+    return out, None
